@@ -320,8 +320,13 @@ impl Plugin for FileTransferPlugin {
                                 next_package: 1,
                                 recvd_packages: 0,
                                 recvd_payload: 0,
+                                // nr_packages and buffer_size are taken from the msg so we do limit the
+                                // initial capacity (the vec grows if needed):
                                 file_data: Vec::with_capacity(if keep_data {
-                                    (nr_packages * buffer_size) as usize
+                                    std::cmp::min(
+                                        nr_packages.saturating_mul(buffer_size),
+                                        MAX_FLST_PREALLOC_SIZE,
+                                    ) as usize
                                 } else {
                                     0
                                 }),
@@ -857,6 +862,9 @@ impl FileTransferPlugin {
         false
     }
 }
+
+/// max. capacity reserved upfront for the file data on a FLST msg
+const MAX_FLST_PREALLOC_SIZE: u64 = 64 * 1024 * 1024;
 
 fn arg_as_uint(arg: &crate::dlt::DltArg) -> Result<u64, ()> {
     let is_uint = arg.type_info & DLT_TYPE_INFO_UINT > 0;
